@@ -233,4 +233,11 @@ and 1 s + 1 s distributes 0 while 2 s distributes 1. -/
 example : pendingDistribution 64 (10 ^ 9) 2000000000 1000000000 (5 * 10 ^ 8) 1 = some (0, 2000000000)
     ∧ pendingDistribution 64 (10 ^ 9) 2000000000 1000000000 (5 * 10 ^ 8) 2 = some (1, 1999999999) := by decide
 
+-- added by the hygiene audit
+-- `dist_defined`: its three hypotheses; `dist_additive_le`: three defined distributions over 1 s + 1 s vs 2 s
+example : (10 ^ 9 : Nat) ≠ 0 ∧ (7 : Nat) < 2 ^ 64 ∧ 7 * 10 ^ 9 / 10 ^ 9 < 2 ^ 64 := by decide
+example : (0 : Nat) + 0 ≤ 1 ∧ (1999999999 : Nat) ≤ 2000000000 :=
+  dist_additive_le (W := 64) (U := 10 ^ 9) (cur := 2000000000) (mn := 1000000000) (f := 5 * 10 ^ 8) (t₁ := 1) (t₂ := 1)
+    (d₁ := 0) (n₁ := 2000000000) (d₂ := 0) (n₂ := 2000000000) (d := 1) (n := 1999999999) (by decide) (by decide) (by decide)
+
 end Gmx.C14
